@@ -66,7 +66,7 @@ def prepare_two_qubit_state_using_sqrt_iswap(
     sqrt_iswap_gate = ops.SQRT_ISWAP_INV if use_sqrt_iswap_inv else ops.SQRT_ISWAP
     op_list = [ops.ry(2 * alpha).on(q0), sqrt_iswap_gate.on(q0, q1)]
     intermediate_state = circuits.Circuit(op_list).final_state_vector(
-        ignore_terminal_measurements=False, dtype=np.complex64
+        qubit_order=[q0, q1], ignore_terminal_measurements=False, dtype=np.complex64
     )
     u_iSWAP, _, vh_iSWAP = np.linalg.svd(intermediate_state.reshape(2, 2))
     return op_list + _1q_matrices_to_ops(
@@ -99,7 +99,7 @@ def prepare_two_qubit_state_using_cz(
     alpha = np.arccos(np.clip(s[0], 0, 1))
     op_list = [ops.ry(2 * alpha).on(q0), ops.H.on(q1), ops.CZ.on(q0, q1)]
     intermediate_state = circuits.Circuit(op_list).final_state_vector(
-        ignore_terminal_measurements=False, dtype=np.complex64
+        qubit_order=[q0, q1], ignore_terminal_measurements=False, dtype=np.complex64
     )
     u_CZ, _, vh_CZ = np.linalg.svd(intermediate_state.reshape(2, 2))
     return op_list + _1q_matrices_to_ops(
@@ -137,7 +137,7 @@ def prepare_two_qubit_state_using_iswap(
         ops.ISWAP_INV.on(q0, q1) if use_iswap_inv else ops.ISWAP.on(q0, q1),
     ]
     intermediate_state = circuits.Circuit(op_list).final_state_vector(
-        ignore_terminal_measurements=False, dtype=np.complex64
+        qubit_order=[q0, q1], ignore_terminal_measurements=False, dtype=np.complex64
     )
     u_CZ, _, vh_CZ = np.linalg.svd(intermediate_state.reshape(2, 2))
     return op_list + _1q_matrices_to_ops(
